@@ -966,7 +966,7 @@ def r8(ctx):
 FLOAT_FUNCS = {'cos', 'sin', 'tan', 'sqrt', 'hypot', 'arctan2', 'arctan', 'arcsin', 'arccos', 'deg2rad', 'rad2deg',
                'radians', 'degrees', 'exp', 'log', 'float', 'float64', 'true_divide', 'divide', 'mean', 'linspace'}
 KEEP_FUNCS = {'abs', 'absolute', 'fabs', 'asarray', 'asanyarray', 'atleast_1d', 'atleast_2d', 'array', 'ravel', 'flatten',
-              'reshape', 'squeeze', 'negative', 'add', 'subtract', 'sum', 'min', 'max', 'copy', 'where', 'minimum',
+              'reshape', 'squeeze', 'transpose', 'negative', 'add', 'subtract', 'sum', 'min', 'max', 'copy', 'where', 'minimum',
               'maximum', 'broadcast_arrays'}
 PRODUCT_FUNCS = {'multiply', 'dot', 'inner', 'outer', 'cross', 'prod', 'matmul', 'einsum', 'vdot', 'tensordot'}
 POWER_FUNCS = {'square', 'power'}
@@ -980,8 +980,9 @@ class _DtypeLint:
     integer array), 'float' (surely floating: float literal, true division, trig/sqrt/hypot result, Quantity, explicit
     float dtype), 'scalar' (a Python number or unknown: neither overflows nor promotes)."""
 
-    def __init__(self, ctx, model, coord_attrs=('x', 'y', 'xy'), sums=True):
+    def __init__(self, ctx, model, coord_attrs=('x', 'y', 'xy'), sums=True, int_descr_kinds=()):
         self.ctx, self.m = ctx, model
+        self.int_descr_kinds = set(int_descr_kinds)   # descriptor classes whose stored value may be a fixed-width numpy integer
         self.sums = sums        # also report sums/differences of possibly-integer coordinate arrays (offsets)
         self.coord_attrs = set(coord_attrs)     # attributes whose value keeps the caller's (possibly fixed-width) integer type
         self.problems = []          # (FuncInfo, node, text)
@@ -1055,9 +1056,21 @@ class _DtypeLint:
         if isinstance(n, ast.Constant):
             return 'float' if isinstance(n.value, float) else 'scalar'
         if isinstance(n, ast.Name):
+            if n.id not in env:
+                # a module-level constant with a float value (_HALF_PIXEL = 0.5) promotes like the literal
+                sts = self.m.modules[fi.module].assigns.get(n.id) if fi.module in self.m.modules else None
+                if sts and len(sts) == 1 and isinstance(getattr(sts[0], 'value', None), ast.Constant) \
+                        and isinstance(sts[0].value.value, float):
+                    return 'float'
             return env.get(n.id, 'scalar')
         if isinstance(n, ast.Attribute):
             if n.attr in self.coord_attrs:
+                # a scalar position of the region itself (ScalarPixCoord) holds Python numbers: PixCoord unwraps scalars
+                v_ = n.value
+                if isinstance(v_, ast.Attribute) and isinstance(v_.value, ast.Name) and v_.value.id == 'self' and fi.cls:
+                    ci_ = self.m.modules[fi.module].classes.get(fi.cls)
+                    if ci_ is not None and self.m.descriptor_kind(ci_, v_.attr) == 'ScalarPixCoord':
+                        return 'scalar'
                 return 'coord'
             if n.attr in ('value',) or n.attr in ('real',):
                 return self.kind(fi, n.value, env, depth)
@@ -1066,6 +1079,8 @@ class _DtypeLint:
                 dk = self.m.descriptor_kind(ci, n.attr) if ci is not None else None
                 if dk in ('ScalarAngle', 'PositiveScalarAngle'):
                     return 'float'           # a Quantity: astropy keeps quantities floating
+                if dk in self.int_descr_kinds:
+                    return 'coord'           # stored as given: np.uint8(5) stays a uint8
             if n.attr in ('T', 'flat'):
                 return self.kind(fi, n.value, env, depth)
             return 'scalar'
@@ -1105,6 +1120,8 @@ class _DtypeLint:
             nm = dotted(n.func) or ''
             short = nm.split('.')[-1]
             argk = [self.kind(fi, a_, env, depth) for a_ in n.args]
+            if isinstance(n.func, ast.Attribute) and isinstance(n.func.value, (ast.Call, ast.BinOp, ast.Subscript)):
+                self.kind(fi, n.func.value, env, depth)      # the receiver expression is evaluated too: f(a - b).transpose()
             kw = {k.arg: k.value for k in n.keywords if k.arg}
             for k in n.keywords:
                 self.kind(fi, k.value, env, depth)
@@ -1126,6 +1143,8 @@ class _DtypeLint:
                 if short in KEEP_FUNCS or short in POWER_FUNCS or short in PRODUCT_FUNCS:
                     return self._join(argk) if argk else 'scalar'
                 return 'scalar'
+            if isinstance(n.func, ast.Attribute) and short in ('mean', 'std', 'var') and not n.args:
+                return 'float'           # x.mean() of an integer array is a float64
             # methods on arrays that keep the dtype
             if isinstance(n.func, ast.Attribute) and short in KEEP_FUNCS | {'astype'}:
                 return self.kind(fi, n.func.value, env, depth)
